@@ -17,7 +17,7 @@ from __future__ import annotations
 import ast
 
 from ..cfg import ENTRY, EXIT, header_parts
-from ..flow import reachable_under, Defs, Scope, absence_by_none, arg, caller_object_mutations, guards, iterations, nnf
+from ..flow import dependence_text, parse_expr, reachable_under, Defs, Scope, absence_by_none, arg, caller_object_mutations, guards, iterations, nnf
 from ..loader import AnalysisError, FuncInfo, dotted, norm, walk_no_nested
 from ..report import Ctx
 from ..selftest import Mutant
@@ -359,7 +359,10 @@ def rule_short_circuit(ctx: Ctx) -> None:  # noqa: C901, PLR0915
     # caching only for functions that asked for it
     gs = guards(cfg, d, cfg.node(hit[0]))
     txt = " && ".join(t for t, _p in gs)
-    ctx.tri("6-short-circuit", run_, hit[0], ".cache" in txt, bool(gs) and ".cache" not in txt, "caching only for functions that asked for it (or under a task graph)",
+    # what the controlling conditions are computed from (through locals, all their definitions and the tests selecting them)
+    dep = " ;; ".join(dependence_text(run_.node, parse_expr(t)) for t, _p in guards(cfg, Defs(ast.Module(body=[], type_ignores=[])), cfg.node(hit[0])))
+    opaque = any(isinstance(c, ast.Call) and isinstance(c.func, ast.Name) and c.func.id.startswith("_") for t, _p in gs for c in ast.walk(parse_expr(t))) if gs else False
+    ctx.tri("6-short-circuit", run_, hit[0], ".cache" in txt or ".cache" in dep, bool(gs) and ".cache" not in txt and ".cache" not in dep and not opaque, "caching only for functions that asked for it (or under a task graph)",
             f"the cache is consulted under `{txt[:90]}`, which does not depend on func.cache: functions that did not ask for caching are cached", "no condition controls the cache lookup", key="use-cache")
     upc = P.func(f"{CA}.update_cache")
     ucfg = ctx.cfg(upc)
